@@ -165,6 +165,11 @@ public:
     auto phase1 = shutdownPhase1_SignalShutdown();
     if (phase1.wasAlreadyShutdown)
     {
+      // A submitter that raced with shutdown()/stop() may have registered a
+      // worker after shutdown()'s join loop had finished (the worker exits by
+      // itself because _shutdown is set). Join such stragglers: destroying
+      // _threads with a joinable std::thread calls std::terminate().
+      shutdownPhase4_JoinThreads();
       return;
     }
 
